@@ -7,7 +7,7 @@ for d in seeded/*/; do
   sibling=$(python3 -c "import json,sys; print(json.load(open('$d/meta.json')).get('caught_by_sibling_check',''))" 2>/dev/null)
   [ -n "$sibling" ] && pid=$sibling
   ( out=$(harness/mutant_test.sh /verif/$f $pid 2>&1); rc=$?; sig=$(echo "$out" | grep -m1 "signature:" | sed 's/.*signature: //'); echo "MUTANT $id on=$pid rc=$rc $sig" ) &
-  while [ $(jobs -r | wc -l) -ge 4 ]; do sleep 1; done
+  while [ $(jobs -r | wc -l) -ge 5 ]; do sleep 1; done
 done
 wait
 echo ALL-MUTANTS-DONE
